@@ -16,6 +16,12 @@ Definition var := nat.
 
 Inductive comb_kind : Type := KAll | KRace | KAllSettled | KAny.
 Inductive rkind : Type := RNext | RReturn | RThrow.     (* AsyncGenerator.prototype.next / return / throw *)
+(* what Get(p, "constructor") finds on a native promise p *)
+Inductive ctorv : Type := CtPromise | CtSub | CtOther | CtUndef | CtNum.
+Inductive gmode : Type := GProm | GOther | GThrow.
+Inductive patch : Type :=
+| PatGet (l : nat) (m : gmode)     (* own accessor: get constructor() { print("L<l> undefined"); return Promise / return Other / throw 41 } *)
+| PatData (c : ctorv).             (* own data property: Promise, Sub, Other (a plain function), undefined, 5 *)
 
 Inductive expr : Type :=
 | EUndef
@@ -34,7 +40,10 @@ Inductive expr : Type :=
 | EFinally (p f : expr)                   (* (p).finally(f) *)
 | EComb (k : comb_kind) (l : list expr)   (* Promise.all([...]) ... *)
 | ECall (f a : expr)                      (* (f)(a) *)
-| ENext (k : rkind) (g a : expr).         (* (g).next(a) / (g).return(a) / (g).throw(a) *)
+| ENext (k : rkind) (g a : expr)          (* (g).next(a) / (g).return(a) / (g).throw(a) *)
+| ESubResolve (e : expr)                  (* Sub.resolve(e)      with   class Sub extends Promise {} *)
+| ESubNew (f : fid)                       (* new Sub(fN) *)
+| EPatch (pt : patch) (e : expr).         (* pg(e, l, m) / pd(e, m): define an own "constructor" property on the promise e *)
 
 Inductive stmt : Type :=
 | SPrint (l : nat) (e : expr)             (* print("L<l> " + show(e)) *)
@@ -76,8 +85,8 @@ with callable : Type :=
 | CReject (p flag : nat)                  (* promise reject function, 27.2.1.3.1 *)
 | CAwaitFul (k : nat)                     (* Await fulfilledClosure, 27.7.5.3 *)
 | CAwaitRej (k : nat)
-| CThenFinally (onf : value)              (* 27.2.5.3.1 *)
-| CCatchFinally (onf : value)
+| CThenFinally (onf : value) (sub : bool) (* 27.2.5.3.1; sub: the species constructor C captured by the closure is Sub *)
+| CCatchFinally (onf : value) (sub : bool)
 | CValueThunk (v : value)
 | CThrower (v : value)
 | CAllElem (a i : nat)                    (* Promise.all resolve element function *)
@@ -92,6 +101,9 @@ Inductive pstate : Type := Pending | Fulfilled (v : value) | Rejected (v : value
 Record cap : Type := mkCap { cprom : value; cres : callable; crej : callable }.
 Record reaction : Type := mkR { rcap : option cap; rful : bool; rhandler : option callable }.
 Record prom : Type := mkP { pst : pstate; pful : list reaction; prej : list reaction }.
+(* where Get(p, "constructor") leads: the class the promise was constructed by (Promise or Sub: found on the prototype)
+   unless an own property shadows it *)
+Record pkind : Type := mkPK { psub : bool; ppatch : option patch }.
 
 Inductive thenfn : Type := TNative | TCall (c : callable).   (* Promise.prototype.then, or a user then *)
 Inductive job : Type :=
@@ -127,6 +139,7 @@ Record state : Type := mkSt {
   proms : list prom;
   flags : list bool;                (* alreadyResolved records *)
   combs : list comb;
+  pkinds : list pkind;              (* per promise: constructor information (default: plain %Promise% instance) *)
   konts : list (option kont);       (* suspended async function bodies; resumed at most once *)
   agens : list agen;                (* async generator objects *)
   store : list value;               (* global variables *)
@@ -134,16 +147,17 @@ Record state : Type := mkSt {
   out : list (nat * value)          (* the print trace *)
 }.
 
-Definition st0 : state := mkSt [] [] [] [] [] [] [] [].
+Definition st0 : state := mkSt [] [] [] [] [] [] [] [] [].
 
-Definition set_proms s x := mkSt x (flags s) (combs s) (konts s) (agens s) (store s) (queue s) (out s).
-Definition set_flags s x := mkSt (proms s) x (combs s) (konts s) (agens s) (store s) (queue s) (out s).
-Definition set_combs s x := mkSt (proms s) (flags s) x (konts s) (agens s) (store s) (queue s) (out s).
-Definition set_konts s x := mkSt (proms s) (flags s) (combs s) x (agens s) (store s) (queue s) (out s).
-Definition set_agens s x := mkSt (proms s) (flags s) (combs s) (konts s) x (store s) (queue s) (out s).
-Definition set_store s x := mkSt (proms s) (flags s) (combs s) (konts s) (agens s) x (queue s) (out s).
-Definition set_queue s x := mkSt (proms s) (flags s) (combs s) (konts s) (agens s) (store s) x (out s).
-Definition set_out s x := mkSt (proms s) (flags s) (combs s) (konts s) (agens s) (store s) (queue s) x.
+Definition set_proms s x := mkSt x (flags s) (combs s) (pkinds s) (konts s) (agens s) (store s) (queue s) (out s).
+Definition set_flags s x := mkSt (proms s) x (combs s) (pkinds s) (konts s) (agens s) (store s) (queue s) (out s).
+Definition set_combs s x := mkSt (proms s) (flags s) x (pkinds s) (konts s) (agens s) (store s) (queue s) (out s).
+Definition set_pkinds s x := mkSt (proms s) (flags s) (combs s) x (konts s) (agens s) (store s) (queue s) (out s).
+Definition set_konts s x := mkSt (proms s) (flags s) (combs s) (pkinds s) x (agens s) (store s) (queue s) (out s).
+Definition set_agens s x := mkSt (proms s) (flags s) (combs s) (pkinds s) (konts s) x (store s) (queue s) (out s).
+Definition set_store s x := mkSt (proms s) (flags s) (combs s) (pkinds s) (konts s) (agens s) x (queue s) (out s).
+Definition set_queue s x := mkSt (proms s) (flags s) (combs s) (pkinds s) (konts s) (agens s) (store s) x (out s).
+Definition set_out s x := mkSt (proms s) (flags s) (combs s) (pkinds s) (konts s) (agens s) (store s) (queue s) x.
 
 Fixpoint list_set {A : Type} (d : A) (l : list A) (n : nat) (x : A) : list A :=
   match n, l with
@@ -188,6 +202,19 @@ Definition new_cap (s : state) : cap * state :=
   let '(rs, rj, s2) := create_resolving p s1 in
   (mkCap (VProm p) rs rj, s2).
 
+Definition std_kind : pkind := mkPK false None.
+Definition get_kind (p : nat) (s : state) : pkind := nth p (pkinds s) std_kind.
+Definition put_kind (p : nat) (k : pkind) (s : state) : state := set_pkinds s (list_set std_kind (pkinds s) p k).
+
+(* NewPromiseCapability(C) for C = %Promise% (sub = false) or C = Sub (sub = true: Construct(Sub, « executor »), whose
+   default derived constructor calls super(executor)) *)
+Definition new_cap_c (sub : bool) (s : state) : cap * state :=
+  let '(c, s1) := new_cap s in
+  match cprom c with
+  | VProm p => (c, if sub then put_kind p (mkPK true None) s1 else s1)
+  | _ => (c, s1)
+  end.
+
 (* TriggerPromiseReactions *)
 Fixpoint trigger (rs : list reaction) (arg : value) (s : state) : state :=
   match rs with
@@ -217,10 +244,6 @@ Definition perform_then (p : nat) (onf onr : option callable) (c : option cap) (
   | Rejected v => enqueue (JReact rr v) s
   end.
 
-(* Promise.prototype.then on a native promise *)
-Definition promise_then (p : nat) (onf onr : value) (s : state) : value * state :=
-  let '(c, s1) := new_cap s in
-  (cprom c, perform_then p (callable_of onf) (callable_of onr) (Some c) s1).
 
 (* ---------- results ---------- *)
 Inductive res (A : Type) : Type :=
@@ -239,6 +262,33 @@ Definition bind {A B : Type} (r : res A) (k : A -> state -> res B) : res B :=
   | NoFuel => NoFuel
   | Stuck => Stuck
   end.
+
+(* Get(p, "constructor") on a native promise: observable when an accessor was installed *)
+Definition get_ctor (p : nat) (s : state) : res ctorv :=
+  let k := get_kind p s in
+  match ppatch k with
+  | Some (PatGet l m) =>
+    let s1 := emit l VUndef s in
+    match m with GProm => Ok CtPromise s1 | GOther => Ok CtOther s1 | GThrow => Thr (VNum 41) s1 end
+  | Some (PatData c) => Ok c s
+  | None => Ok (if psub k then CtSub else CtPromise) s
+  end.
+
+(* SpeciesConstructor(p, %Promise%), 7.3.22: true = Sub (Sub[@@species] is the inherited getter returning `this`),
+   false = %Promise% (constructor undefined, or Other whose @@species is undefined); a non-object constructor: TypeError *)
+Definition species (p : nat) (s : state) : res bool :=
+  bind (get_ctor p s) (fun c s1 =>
+    match c with
+    | CtSub => Ok true s1
+    | CtNum => Thr VTypeError s1
+    | _ => Ok false s1
+    end).
+
+(* Promise.prototype.then on a native promise, 27.2.5.4 *)
+Definition promise_then (p : nat) (onf onr : value) (s : state) : res value :=
+  bind (species p s) (fun sub s1 =>
+    let '(c, s2) := new_cap_c sub s1 in
+    Ok (cprom c) (perform_then p (callable_of onf) (callable_of onr) (Some c) s2)).
 
 Inductive completion : Type := CNormal | CReturn (v : value) | CThrow (v : value) | CSuspend.
 
@@ -287,19 +337,28 @@ Section Open.
     if nth fl (flags s) true then Ok VUndef s
     else Ok VUndef (reject p v (set_flags s (list_set true (flags s) fl true))).
 
-  (* PromiseResolve(%Promise%, x) *)
-  Definition promise_resolve (v : value) (s : state) : res value :=
+  (* PromiseResolve(C, x), 27.2.4.7.1, for C = %Promise% (sub = false) or Sub (sub = true) *)
+  Definition promise_resolve_c (sub : bool) (v : value) (s : state) : res value :=
+    let wrap (s0 : state) : res value :=
+      let '(c, s1) := new_cap_c sub s0 in
+      bind (callf (cres c) [v] s1) (fun _ s2 => Ok (cprom c) s2) in
     match v with
-    | VProm _ => Ok v s
-    | _ =>
-      let '(c, s1) := new_cap s in
-      bind (callf (cres c) [v] s1) (fun _ s2 => Ok (cprom c) s2)
+    | VProm p =>
+      (* 1. If IsPromise(x): xConstructor = ? Get(x, "constructor"); if SameValue(xConstructor, C) return x *)
+      bind (get_ctor p s) (fun ct s1 =>
+        match ct, sub with
+        | CtPromise, false => Ok v s1
+        | CtSub, true => Ok v s1
+        | _, _ => wrap s1
+        end)
+    | _ => wrap s
     end.
+  Definition promise_resolve (v : value) (s : state) : res value := promise_resolve_c false v s.
 
   (* Invoke(v, "then", « onf, onr ») *)
   Definition invoke_then (v onf onr : value) (s : state) : res value :=
     match v with
-    | VProm p => let '(r, s1) := promise_then p onf onr s in Ok r s1
+    | VProm p => promise_then p onf onr s
     | VThenable f => callf (CUser f) [onf; onr] s
     | VThenGetter g =>
         bind (callf (CUser g) [] s) (fun t s1 =>
@@ -308,12 +367,12 @@ Section Open.
     end.
 
   (* thenFinally / catchFinally closures *)
-  Definition finally_fn (onf : value) (thunk : callable) (s : state) : res value :=
+  Definition finally_fn (onf : value) (sub : bool) (thunk : callable) (s : state) : res value :=
     match callable_of onf with
     | None => Thr VTypeError s
     | Some c =>
       bind (callf c [] s) (fun r s1 =>
-      bind (promise_resolve r s1) (fun p s2 =>
+      bind (promise_resolve_c sub r s1) (fun p s2 =>
         invoke_then p (VFun thunk) VUndef s2))
     end.
 
@@ -381,8 +440,8 @@ Section Open.
     match c with
     | CResolve p fl => resolve_fn p fl v s
     | CReject p fl => reject_fn p fl v s
-    | CThenFinally onf => finally_fn onf (CValueThunk v) s
-    | CCatchFinally onf => finally_fn onf (CThrower v) s
+    | CThenFinally onf sub => finally_fn onf sub (CValueThunk v) s
+    | CCatchFinally onf sub => finally_fn onf sub (CThrower v) s
     | CValueThunk x => Ok x s
     | CThrower x => Thr x s
     | CAllElem a i => elem_fn a i v false VArr s
@@ -484,7 +543,7 @@ Section Open.
       let '(rs, rj, s1) := create_resolving p s in
       let r : res value :=
         match t, thenable with
-        | TNative, VProm q => let '(v, s2) := promise_then q (VFun rs) (VFun rj) s1 in Ok v s2
+        | TNative, VProm q => promise_then q (VFun rs) (VFun rj) s1
         | TNative, _ => Stuck
         | TCall c, _ => callf c [VFun rs; VFun rj] s1
         end in
@@ -852,11 +911,13 @@ Section Interp.
         bind (eval f p args s) (fun vp s1 =>
         bind (eval f a args s1) (fun va s2 =>
           match vp with
-          | VProm _ =>
-            match callable_of va with
-            | Some _ => invoke_then (call f) vp (VFun (CThenFinally va)) (VFun (CCatchFinally va)) s2
-            | None => invoke_then (call f) vp va va s2
-            end
+          | VProm p =>
+            (* 27.2.5.3: C = ? SpeciesConstructor(promise, %Promise%) first, then Invoke(promise, "then", ...) *)
+            bind (species p s2) (fun sub s3 =>
+              match callable_of va with
+              | Some _ => invoke_then (call f) vp (VFun (CThenFinally va sub)) (VFun (CCatchFinally va sub)) s3
+              | None => invoke_then (call f) vp va va s3
+              end)
           | _ => Thr VTypeError s2
           end))
       | EComb k l =>
@@ -873,6 +934,24 @@ Section Interp.
           | VFun c => call f c [vb] s2
           | _ => Thr VTypeError s2
           end))
+      | ESubResolve e1 => bind (eval f e1 args s) (fun v s1 => promise_resolve_c (call f) true v s1)
+      | ESubNew fn =>
+        let '(p, s1) := new_prom s in
+        let s1 := put_kind p (mkPK true None) s1 in
+        let '(rs, rj, s2) := create_resolving p s1 in
+        match call f (CUser fn) [VFun rs; VFun rj] s2 with
+        | Ok _ s3 => Ok (VProm p) s3
+        | Thr e1 s3 => bind (call f rj [e1] s3) (fun _ s4 => Ok (VProm p) s4)
+        | Abort s3 => Abort s3
+        | NoFuel => NoFuel
+        | Stuck => Stuck
+        end
+      | EPatch pt e1 =>
+        bind (eval f e1 args s) (fun v s1 =>
+          match v with
+          | VProm p => Ok v (put_kind p (mkPK (psub (get_kind p s1)) (Some pt)) s1)
+          | _ => Stuck
+          end)
       | ENext rk a b =>
         bind (eval f a args s) (fun va s1 =>
           match va with
